@@ -47,7 +47,7 @@ def run_seed(seed, run_tests):
             lines += [prop + ': ' + l[:220] for l in hit[:3]]
         status = 'CAUGHT' if len(caught) == len(seed['props']) else ('PARTIAL' if caught else 'LIVENESS-GAP')
         if seed.get('benign'):
-            status = 'SILENT-OK' if not lines else 'FALSE-ALARM'
+            status = 'SILENT-OK' if not lines else ('KNOWN-LIMIT' if seed.get('known_false_alarm') else 'FALSE-ALARM')
         return seed['name'], status + (' ' + tests if tests else ''), '\n      '.join(lines)
     finally:
         shutil.rmtree(d, ignore_errors=True)
@@ -80,10 +80,10 @@ def main():
             if a.prop:
                 continue
             print('%-14s %s' % (status, name))
-            if a.v or not (status.startswith('CAUGHT') or status.startswith('SILENT-OK')):
+            if a.v or not (status.startswith('CAUGHT') or status.startswith('SILENT-OK') or status.startswith('KNOWN-LIMIT')):
                 if detail:
                     print('      ' + detail)
-            if not (status.startswith('CAUGHT') or status.startswith('SILENT-OK') or status.startswith('NOT-APPLICABLE')):
+            if not (status.startswith('CAUGHT') or status.startswith('SILENT-OK') or status.startswith('NOT-APPLICABLE') or status.startswith('KNOWN-LIMIT')):
                 bad += 1
     if a.json:
         json.dump(results, open(a.json, 'w'))
